@@ -2099,6 +2099,28 @@ RULES["rangeeq"] = rule_rangeeq
 RULE_ORDER[RULE_ORDER.index("R20"):RULE_ORDER.index("R20")] = ["tupidx", "selfout", "stepby", "rangeeq"]
 
 
+def rule_fmtmsg(toks, fired):
+    """format!(FMT, ARGS..)  ->  fmt_message()      (unit solver_new: the error strings of settings validation)
+    Verus has no `format!`.  The text of the message is outside every contract (only Ok / Err is specified); the prelude-style
+    stand-in `fmt_message()` returns an arbitrary String.  Formatting the arguments (Debug / Display of a &str) has no effect
+    on program state, so dropping them changes nothing observable except the message text.  Stated in the unit header."""
+    i = 0
+    while i < len(toks):
+        t = toks[i]
+        if t.kind == "ident" and t.text == "format" and not t.syn and toks[next_code(toks, i + 1)].text == "!":
+            p = next_code(toks, next_code(toks, i + 1) + 1)
+            if toks[p].text == "(":
+                pe = match_close(toks, p)
+                toks = toks[:i] + synth("fmt_message()") + toks[pe + 1:]
+                fired["fmtmsg"] = fired.get("fmtmsg", 0) + 1
+        i += 1
+    return toks
+
+
+RULES["fmtmsg"] = rule_fmtmsg
+RULE_ORDER[RULE_ORDER.index("R20"):RULE_ORDER.index("R20")] = ["fmtmsg"]
+
+
 def apply_rules(toks, rules, fired):
     for r in RULE_ORDER:
         if r in rules:
@@ -2693,9 +2715,15 @@ def render_item(unit, kind, opts, sections):
             # visibility tokens are not part of the comparison (widened to pub, see above)
             got = got[got.index(kind):]
             want = want[want.index(kind):]
+        want_fn_only = None
         if "as" in opts:
+            if kind == "fn" and "fn" in want and want.index("fn") + 1 < len(want) and want[want.index("fn") + 1] == name:
+                # merge_fn renames exactly the identifier after the first `fn`; a body that mentions the same identifier
+                # (`X::new()` inside `fn new`) keeps it
+                k_fn = want.index("fn") + 1
+                want_fn_only = want[:k_fn] + [opts["as"]] + want[k_fn + 1:]
             want = [opts["as"] if (w == name) else w for w in want]
-        if got != want:
+        if got != want and (want_fn_only is None or got != want_fn_only):
             raise ExtractError(f"fidelity check failed for {kind} {name}")
     start = unit.offset
     unit.emit(emitted + "\n")
@@ -3001,6 +3029,14 @@ def process(template_path, unit, depth=0):
             process(p, unit, depth + 1)
             i += 1
             continue
+        if s.startswith("//@features "):
+            # unit-level switch (additive; unit chordal_compact): `#[cfg(feature = ..)]` is evaluated (rule R12, field filter) for the
+            # listed cargo features from here on instead of the default set; build_unit resets it for every unit
+            global DEFAULT_FEATURES
+            DEFAULT_FEATURES = {f.strip() for f in s[len("//@features "):].split(",") if f.strip()}
+            unit.emit(f"// ---- cfg evaluated for features {sorted(DEFAULT_FEATURES)}\n")
+            i += 1
+            continue
         m = re.match(r"//@(fn|struct|enum|const|trait|type)\s+(.*)", s)
         if m:
             kind, opts = m.group(1), parse_kv(m.group(2))
@@ -3040,6 +3076,8 @@ def build_unit(name, outdir):
     tpl = os.path.join(VERIF, "units", name + ".rs")
     unit = Unit(name)
     _file_cache.clear()
+    global DEFAULT_FEATURES
+    DEFAULT_FEATURES = {"serde"}
     process(tpl, unit)
     os.makedirs(outdir, exist_ok=True)
     out = os.path.join(outdir, name + ".rs")
